@@ -331,6 +331,12 @@ pub fn run(ctx: &Ctx) -> i32 {
             }
         }
     }
+    // testing aid (determinism self-test): below nominal scale only a fixed subsample of the units runs
+    let subsampled = ctx.scale < 100;
+    if subsampled {
+        let mut i = 0u64;
+        units.retain(|u| { i += 1; u.first || (i * 7919) % 100 < ctx.scale });
+    }
     let outs = run_indexed(units.len(), ctx.workers, |i| run_unit(ctx, all[units[i].set_idx], &units[i], i as u64, checked));
 
     let mut evals = 0u64;
@@ -394,7 +400,7 @@ pub fn run(ctx: &Ctx) -> i32 {
         samples,
         exhaustive: false,
         extra: json!({
-            "canonical_fault_space_enumerated_completely_per_key": true,
+            "canonical_fault_space_enumerated_completely_per_key": !subsampled,
             "honest_keys_per_set": keys,
             "runs": keys * all.len() as u64,
             "faults_fired": fired,
